@@ -4,6 +4,8 @@ package main
 // to a small depth), so that rules keep working when code is moved into an extracted helper.
 
 import (
+	"sort"
+
 	"golang.org/x/tools/go/ssa"
 )
 
@@ -167,7 +169,6 @@ func (c *Ctx) errorReturnedUp(rc rcall) bool {
 
 func (rc rcall) li() linstr { return linstr{rc.call, rc.chain} }
 
-
 // regionFuncChains: the root, its closures and every helper regionCalls looks into (leaf helpers without calls of
 // their own included), each with the call chain that leads to it (the first one found).
 func (c *Ctx) regionFuncChains(root *ssa.Function, follow func(*ssa.Function) bool) map[*ssa.Function][]ssa.CallInstruction {
@@ -199,5 +200,16 @@ func (c *Ctx) regionFuncChains(root *ssa.Function, follow func(*ssa.Function) bo
 			}
 		}
 	}
+	return out
+}
+
+// regionFuncChainsList: the functions of regionFuncChains(root, nil) in a stable order.
+func (c *Ctx) regionFuncChainsList(root *ssa.Function) []*ssa.Function {
+	m := c.regionFuncChains(root, nil)
+	var out []*ssa.Function
+	for f := range m {
+		out = append(out, f)
+	}
+	sort.Slice(out, func(i, j int) bool { return out[i].String() < out[j].String() })
 	return out
 }
